@@ -148,12 +148,23 @@ fn cmd_check(args: &[String]) -> i32 {
 #[allow(clippy::too_many_arguments)]
 fn finish(vdir: &str, prop: &str, tier: Tier, seed: u64, stats: &Stats, t0: Instant, violations: i32, replayed: u64) {
     let p = plan::plan_for(prop).unwrap();
+    let mut fallback_samples: Vec<Value> = Vec::new();
+    if stats.samples.is_empty() {
+        // a run that stopped early (violation in the replay or enumeration stage) still shows what its cases look like
+        if let Some(w) = p.worlds.first() {
+            for line in plan::gen_sample(*w, 2, 20, seed) {
+                if let Ok(v) = serde_json::from_str::<Value>(&line) {
+                    fallback_samples.push(v);
+                }
+            }
+        }
+    }
     let mut coverage = json!({
         "evaluations": stats.evaluations,
         "distinct_nontrivial": stats.nontrivial.len(),
         "nontrivial_evaluations": stats.nontrivial_seen,
         "rule": p.rule,
-        "samples": stats.samples,
+        "samples": if stats.samples.is_empty() { &fallback_samples } else { &stats.samples },
         "ops_executed": stats.ops,
         "ops_without_effect": stats.noops,
         "library_calls": stats.lib_calls,
